@@ -314,3 +314,104 @@ fn full_view(dict: &JapaneseDictionary, wid: WordId) -> Result<Value, String> {
     Ok(json!({"surface": cps(wi.surface()), "hwl": wi.head_word_length(), "pos": posidx, "norm": cps(wi.normalized_form()), "dform": cps(wi.dictionary_form()),
         "reading": cps(wi.reading_form()), "a": w(wi.a_unit_split()), "b": w(wi.b_unit_split()), "ws": w(wi.word_structure()), "syn": wi.synonym_group_ids()}))
 }
+
+// ------------------------------------------------------------------ front ends of the compiler (library side)
+/// `vh c05-sources <dir> --seed S --n N`: N build jobs as files: job<k>/matrix.def, lex<i>.csv (1..3 files, the concatenation
+/// is one lexicon), user<i>.csv; some jobs carry a defect (a row with a bad id, a broken matrix line) so that refusals are compared too.
+pub fn sources(args: &[String]) -> i32 {
+    let dir = std::path::PathBuf::from(&args[0]);
+    let seed = arg_u64(args, "--seed", 1);
+    let n = arg_u64(args, "--n", 12) as usize;
+    let mut rng = Rng::new(seed ^ 0xb11d);
+    let mut jobs = Vec::new();
+    for k in 0..n {
+        let jd = dir.join(format!("job{}", k));
+        std::fs::create_dir_all(&jd).unwrap();
+        let d = crate::gen::GenDict::random(&mut rng, &crate::gen::LETTERS, 12);
+        let mut matrix = d.matrix_text();
+        let csv = d.lex_csv();
+        let lines: Vec<&str> = csv.lines().collect();
+        let nfiles = 1 + rng.below(3.min(lines.len()));
+        let mut files = Vec::new();
+        let per = (lines.len() + nfiles - 1) / nfiles;
+        for (fi, chunk) in lines.chunks(per.max(1)).enumerate() {
+            let mut text = chunk.join("\n");
+            text.push('\n');
+            if k % 5 == 3 && fi == 0 {
+                text.push_str("bad,99,99,1,bad,名詞,普通名詞,一般,*,*,*,ヨミ,bad,*,A,*,*,*,*\n"); // ids outside the matrix
+            }
+            let p = jd.join(format!("lex{}.csv", fi));
+            std::fs::write(&p, text).unwrap();
+            files.push(p.display().to_string());
+        }
+        if k % 7 == 5 {
+            matrix.push_str("0 0 notanumber\n");
+        }
+        std::fs::write(jd.join("matrix.def"), &matrix).unwrap();
+        // a user lexicon over this system dictionary: existing POS, references by number
+        let idmax = d.nl.min(d.nr);
+        let mut user = String::new();
+        for u in 0..(1 + rng.below(3)) {
+            let key: String = (0..2 + rng.below(2)).map(|_| *rng.pick(&crate::gen::LETTERS)).collect();
+            user.push_str(&format!("{k}{u},{l},{r},{c},{k}{u},{pos},ヨミ,{k}{u},*,A,*,*,*,*\n", k = key, u = u, l = rng.below(idmax), r = rng.below(idmax), c = rng.range(-500, 9000), pos = crate::gen::POS[rng.below(crate::gen::POS.len())]));
+        }
+        std::fs::write(jd.join("user.csv"), &user).unwrap();
+        let desc = match k % 4 { 0 => String::new(), 1 => format!("job {} description", k), 2 => "説明 ✓".to_string(), _ => "x".repeat(40) };
+        jobs.push(json!({"job": k, "dir": jd.display().to_string(), "matrix": jd.join("matrix.def").display().to_string(), "lex": files, "user": jd.join("user.csv").display().to_string(), "desc": desc}));
+    }
+    std::fs::write(dir.join("jobs.json"), serde_json::to_string(&jobs).unwrap()).unwrap();
+    println!("{}", json!({"jobs": n}));
+    0
+}
+
+/// `vh c05-libbuild <jobs.json>`: the library builds every job (system, then user over it) into <dir>/lib_system.dic / lib_user.dic
+pub fn libbuild(args: &[String]) -> i32 {
+    quiet_panics();
+    let jobs: Vec<Value> = serde_json::from_str(&std::fs::read_to_string(&args[0]).unwrap()).unwrap();
+    let mut out = Vec::new();
+    for j in jobs.iter() {
+        let dir = std::path::PathBuf::from(j["dir"].as_str().unwrap());
+        let desc = j["desc"].as_str().unwrap().to_string();
+        let r = catch(std::panic::AssertUnwindSafe(|| -> Result<(), String> {
+            let mut b = sudachi::dic::build::DictBuilder::new_system();
+            b.set_description(desc.clone());
+            b.read_conn(std::path::Path::new(j["matrix"].as_str().unwrap())).map_err(|e| format!("{:?}", e))?;
+            for f in j["lex"].as_array().unwrap() {
+                b.read_lexicon(std::path::Path::new(f.as_str().unwrap())).map_err(|e| format!("{:?}", e))?;
+            }
+            b.resolve().map_err(|e| format!("{:?}", e))?;
+            let mut bytes = Vec::new();
+            b.compile(&mut bytes).map_err(|e| format!("{:?}", e))?;
+            std::fs::write(dir.join("lib_system.dic"), &bytes).unwrap();
+            Ok(())
+        }));
+        let sys_ok = matches!(r, Ok(Ok(())));
+        out.push(json!({"job": j["job"], "kind": "system", "res": if sys_ok { "ok" } else { "err" }, "file": dir.join("lib_system.dic").display().to_string()}));
+        if sys_ok {
+            // a user dictionary is built against the LOADED system dictionary; each front end loads it in its own way:
+            // the command-line tool with the default configuration, the Python function with a minimal one (no plugins)
+            for (kind, minimal) in [("user", false), ("user_min", true)] {
+                let r2 = catch(std::panic::AssertUnwindSafe(|| -> Result<(), String> {
+                    let cfg = if minimal {
+                        sudachi::config::Config::minimal_at(std::path::PathBuf::from(&args[1])).with_system_dic(dir.join("lib_system.dic"))
+                    } else {
+                        sudachi::config::Config::new(None, None, Some(dir.join("lib_system.dic"))).map_err(|e| format!("{:?}", e))?
+                    };
+                    let dict = JapaneseDictionary::from_cfg(&cfg).map_err(|e| format!("{:?}", e))?;
+                    let mut b = sudachi::dic::build::DictBuilder::new_user(&dict);
+                    b.set_description(desc.clone());
+                    b.read_lexicon(std::path::Path::new(j["user"].as_str().unwrap())).map_err(|e| format!("{:?}", e))?;
+                    b.resolve().map_err(|e| format!("{:?}", e))?;
+                    let mut bytes = Vec::new();
+                    b.compile(&mut bytes).map_err(|e| format!("{:?}", e))?;
+                    std::fs::write(dir.join(format!("lib_{}.dic", kind)), &bytes).unwrap();
+                    Ok(())
+                }));
+                out.push(json!({"job": j["job"], "kind": kind, "res": if matches!(r2, Ok(Ok(()))) { "ok" } else { "err" }, "file": dir.join(format!("lib_{}.dic", kind)).display().to_string(),
+                                "msg": match r2 { Ok(Err(e)) => e, Err(m) => m, _ => String::new() }}));
+            }
+        }
+    }
+    println!("{}", serde_json::to_string(&out).unwrap());
+    0
+}
